@@ -14,6 +14,7 @@ def run(ctx):
     cli.rule_answer_after_solver(ctx)
     cli.rule_wrapper_flags(ctx)
     io_rules.rule_answer_grammar(ctx)
+    io_rules.rule_status_before_witness(ctx)
     ctx.assume("clap 2 parses the declared options as documented; a panic or exit(1) is a non-zero exit status")
     ctx.assume("rustc's MIR, resolved callees and evaluated string constants; strum's derives as expanded by the compiler")
     return (
